@@ -497,6 +497,8 @@ class Folder:
         if k == 'cast':
             a = self.ev(t[3])
             tb = ty_bits(t[2])
+            if tb is None and (t[2].startswith('*mut ') or t[2].startswith('*const ')) and '[' not in t[2] and 'dyn' not in t[2]:
+                tb = (64, False)       # thin raw pointers: address-sized integers
             if tb is None:
                 raise Unfoldable('cast to ' + t[2])
             return _wrap(a, tb[0], tb[1]) if tb[0] > 1 else (1 if a else 0)
